@@ -264,6 +264,8 @@ pub struct HookLog {
     pub follower_pairs_in_link: usize,
     pub transient_follower_past_leader: usize,
     pub follower_past_leader_by_rounding: usize,
+    /// executions of the instrumented unsafe blocks of free_path.rs during this run
+    pub site_hits: std::collections::BTreeMap<&'static str, u64>,
 }
 
 fn active_train(auths: &[altrios_core::meet_pass::disp_structs::DispAuth]) -> Option<u16> {
@@ -356,9 +358,11 @@ pub fn run_with_hook(links: &[Link], sims: &[altrios_core::prelude::SpeedLimitTr
             check_intermediate(s, &links2, &mut g);
         }
     })));
+    let _ = altrios_core::verif_hooks::take_site_hits();
     let result = panics::guard(AssertUnwindSafe(|| run_dispatch(links, sims, nets, false, false)));
     set_dispatch_observer(None);
-    let log = Rc::try_unwrap(log).map(|c| c.into_inner()).unwrap_or_default();
+    let mut log = Rc::try_unwrap(log).map(|c| c.into_inner()).unwrap_or_default();
+    log.site_hits = altrios_core::verif_hooks::take_site_hits();
     DispatchOutcome { result, log }
 }
 
@@ -780,6 +784,15 @@ pub fn shipped_instance(ctx: &mut Ctx, rng: &mut Rng) -> Option<Prepared> {
     Some(Prepared { inst: Instance { net: gen, links, lm: Default::default(), specs: vec![spec], trains, route_len: 0.0 }, nets, info })
 }
 
+fn count_sites(ctx: &mut Ctx, out: &DispatchOutcome) {
+    for (site, n) in &out.log.site_hits {
+        ctx.add(&format!("obs.unsafe_block_executions.{site}"), *n);
+    }
+    if !out.log.site_hits.is_empty() {
+        ctx.count("obs.dispatch_runs_reaching_unsafe_blocks");
+    }
+}
+
 pub fn run_dispatch_case(ctx: &mut Ctx, rng: &mut Rng, _t: bool) {
     if ctx.case % 40 == 7 {
         if let Some(pr) = shipped_instance(ctx, rng) {
@@ -787,6 +800,7 @@ pub fn run_dispatch_case(ctx: &mut Ctx, rng: &mut Rng, _t: bool) {
             let sims: Vec<_> = pr.inst.trains.iter().map(|t| t.sim.clone()).collect();
             ctx.count("obs.dispatch_runs");
             let out = run_with_hook(&pr.inst.links, &sims, pr.nets.clone());
+            count_sites(ctx, &out);
             let stats = check_plan(ctx, &pr.inst, &out, &pr.nets, &pr.info);
             if stats.had_to_delay || out.log.after_rewind > 0 {
                 ctx.rep.nontrivial(mix(hash_f64s(&[ctx.case as f64, out.log.iterations as f64, 77.0])));
@@ -805,6 +819,7 @@ pub fn run_dispatch_case(ctx: &mut Ctx, rng: &mut Rng, _t: bool) {
     let sims: Vec<_> = pr.inst.trains.iter().map(|t| t.sim.clone()).collect();
     ctx.count("obs.dispatch_runs");
     let out = run_with_hook(&pr.inst.links, &sims, pr.nets.clone());
+    count_sites(ctx, &out);
     let stats = check_plan(ctx, &pr.inst, &out, &pr.nets, &pr.info);
     let opposing = pr.inst.trains.iter().any(|t| t.reverse) && pr.inst.trains.iter().any(|t| !t.reverse);
     let nt = match ctx.prop {
